@@ -57,6 +57,7 @@ fn tiny_case(rng: &mut Rng, pkg: Pkg, comp: Comp) -> ContCase {
         stores: vec![files],
         indexes: vec![IndexDef { name: "files".into(), store: 0, offset: 0, count: 4 }, IndexDef { name: "tail".into(), store: 0, offset: 1, count: 3 }],
         defer: 0,
+        free: 0x5eed_f7ee_da7a,
     };
     ContCase { content, dir, pkg, extra: vec![] }
 }
@@ -85,7 +86,7 @@ fn medium_case(rng: &mut Rng) -> ContCase {
         sort: None,
         unique_keys: false,
     };
-    let dir = DirCase { seed: rng.next(), vstores: vec![false, true], stores: vec![files], indexes: vec![IndexDef { name: "files".into(), store: 0, offset: 0, count: n as u32 }], defer: 0 };
+    let dir = DirCase { seed: rng.next(), vstores: vec![false, true], stores: vec![files], indexes: vec![IndexDef { name: "files".into(), store: 0, offset: 0, count: n as u32 }], defer: 0, free: 0 };
     ContCase { content, dir, pkg: Pkg::OneFile, extra: vec![] }
 }
 
